@@ -142,6 +142,19 @@ def gen_history(seed, label, *, encrypted=None, max_users=3, nops=(3, 10), destr
         dec = {name: base64.b64encode(rng.randbytes(rng.randrange(0, 40))).decode()
                for name in rng.sample(['README', 'other/prefix/x', 'database/file', 'snapshots.bak/aa/bb-cc', 'datafile',
                                        'config.old', 'keys/k1', 'zzz'], rng.randrange(1, 4))}
+    crng = substream(seed, label + '/clock')
+    snaps_idx = [i for i, o in enumerate(ops) if o['op'] == 'snapshot']
+    if len(snaps_idx) >= 2 and crng.random() < 0.15:
+        # the wall clock was stepped back before this command: it is stamped earlier than a snapshot taken before it
+        # (time-stamps stay distinct)
+        j = crng.choice(snaps_idx[1:])
+        earlier = ops[crng.choice([i for i in snaps_idx if i < j])]['at']
+        taken = {o['at'] for o in ops if 'at' in o}
+        at = round(earlier - crng.choice([0.000001, 0.5, 3.0, 86400.0]), 6)
+        while at in taken:
+            at = round(at - 0.25, 6)
+        ops[j]['at'] = at
+        ops[j]['clock_stepped_back'] = True
     mrng = substream(seed, label + '/many')
     if many and mrng.random() < many:
         # a repository with at least 10 x concurrency snapshots (the size of replicat's internal queues):
@@ -488,6 +501,8 @@ class History:
         u = op['u']
         d, files = self.materialize(op)
         self.set_clock(op)
+        if op.get('clock_stepped_back'):
+            self.probe('clock_stepped_back')
         prof = self.W.profile(crash_at=op.get('crash_at'), exists_lies_p=self.case.get('exists_lies_p', 0.0),
                               crash_commit_inflight=substream(self.case['sched_seed'], f'crash{self.opi}') if 'crash_at' in op else None)
         r = self.W.snapshot(self.clients[u], [d], self.opts, note=op.get('note'), profile=prof, live=self.is_live(u))
